@@ -138,6 +138,12 @@ func genEnumValues(r *vh.RNG, n int, bitmask bool, taken map[uint64]bool) []ref.
 				v = 1 << uint(r.Intn(64))
 			case 1: // multi-bit combination entry
 				v = 1<<uint(r.Intn(8)) | 1<<uint(8+r.Intn(8))
+			case 2, 3: // a composite entry: the union of two flags declared before it (further flags follow it)
+				if len(out) >= 2 {
+					v = out[r.Intn(len(out))].Value | out[r.Intn(len(out))].Value
+				} else {
+					v = 1 << uint(len(out))
+				}
 			default:
 				v = 1 << uint(len(out)+r.Intn(3))
 			}
@@ -363,7 +369,11 @@ func genBatch(r *vh.RNG, prefix string, nDialects int) *xmlBatch {
 		a := mk(prefix+"_sensor_pod.xml", "a")
 		c := mk(prefix+"_sensorpod.xml", "c")
 		b.Files[a.File], b.Files[c.File] = a, c
-		top := &ref.XDialect{File: prefix + "twin.xml", Version: "4", Includes: []string{a.File, c.File},
+		// two more include-only definitions with one and the same file name in two directories (two vendors' "sensors.xml")
+		va := mk("vendor_a/"+prefix+"_sensors.xml", "va")
+		vb := mk("vendor_b/"+prefix+"_sensors.xml", "vb")
+		b.Files[va.File], b.Files[vb.File] = va, vb
+		top := &ref.XDialect{File: prefix + "twin.xml", Version: "4", Includes: []string{a.File, c.File, va.File, vb.File},
 			Messages: []ref.XMessage{{ID: func() uint32 {
 				for {
 					id := uint32(r.Intn(1 << 24))
